@@ -53,6 +53,38 @@ type SeqPerf struct {
 	Thresh   float64 `json:"thresh"`
 	BlockMs  int     `json:"blockms"`
 	SlowSink int     `json:"slowsink"` // microseconds the sync sink sleeps per batch (consumer slower than producer)
+	WinOut   int     `json:"winout"`   // window output buffer size
+}
+
+// perfOptions turns a SeqPerf into instance options (nil: defaults).
+func perfOptions(p *SeqPerf) []streamsql.Option {
+	if p == nil {
+		return nil
+	}
+	pc := types.DefaultPerformanceConfig()
+	if p.Strategy != "" {
+		pc.OverflowConfig.Strategy = p.Strategy
+	}
+	if p.Data > 0 {
+		pc.BufferConfig.DataChannelSize = p.Data
+	}
+	if p.Max > 0 {
+		pc.BufferConfig.MaxBufferSize = p.Max
+	}
+	if p.WinOut > 0 {
+		pc.BufferConfig.WindowOutputSize = p.WinOut
+	}
+	if p.MinInc > 0 {
+		pc.OverflowConfig.ExpansionConfig.MinIncrement = p.MinInc
+	}
+	if p.Growth > 0 {
+		pc.OverflowConfig.ExpansionConfig.GrowthFactor = p.Growth
+	}
+	if p.Thresh > 0 {
+		pc.OverflowConfig.ExpansionConfig.TriggerThreshold = p.Thresh
+	}
+	pc.OverflowConfig.BlockTimeout = time.Duration(p.BlockMs) * time.Millisecond
+	return []streamsql.Option{streamsql.WithCustomPerformance(pc)}
 }
 
 // SeqTable registers an in-memory table before rows flow.
@@ -115,29 +147,7 @@ func RunSeq(sc SeqScenario) (evs []Ev, inconclusive string) {
 	if sc.MaxPar > 0 {
 		opts = append(opts, streamsql.WithAnalyticMaxPartitions(sc.MaxPar))
 	}
-	if sc.Perf != nil {
-		pc := types.DefaultPerformanceConfig()
-		if sc.Perf.Strategy != "" {
-			pc.OverflowConfig.Strategy = sc.Perf.Strategy
-		}
-		if sc.Perf.Data > 0 {
-			pc.BufferConfig.DataChannelSize = sc.Perf.Data
-		}
-		if sc.Perf.Max > 0 {
-			pc.BufferConfig.MaxBufferSize = sc.Perf.Max
-		}
-		if sc.Perf.MinInc > 0 {
-			pc.OverflowConfig.ExpansionConfig.MinIncrement = sc.Perf.MinInc
-		}
-		if sc.Perf.Growth > 0 {
-			pc.OverflowConfig.ExpansionConfig.GrowthFactor = sc.Perf.Growth
-		}
-		if sc.Perf.Thresh > 0 {
-			pc.OverflowConfig.ExpansionConfig.TriggerThreshold = sc.Perf.Thresh
-		}
-		pc.OverflowConfig.BlockTimeout = time.Duration(sc.Perf.BlockMs) * time.Millisecond
-		opts = append(opts, streamsql.WithCustomPerformance(pc))
-	}
+	opts = append(opts, perfOptions(sc.Perf)...)
 	cl := &capLog{}
 	opts = append(opts, streamsql.WithLogger(cl))
 	s := newInstance(opts...)
